@@ -40,6 +40,19 @@ fn shrink(t: &[String]) -> Vec<Vec<String>> {
 fn gen(rng: &mut Rng, tier: Tier) -> Vec<Case> {
     let mut out = vec![];
     let (nb, nr) = match tier { Tier::Quick => (1500, 200), Tier::Thorough => (25000, 4000) };
+    if tier == Tier::Thorough {
+        // exhaustive small scope: every sorted sequence of <= 3 non-empty records over 2 chromosomes, coordinates 0..=3, values in {-1,0,2}
+        let mut univ: Vec<B> = vec![];
+        for ch in ["c", "cc"] { for s in 0..=3u64 { for e in s + 1..=3u64 { for v in [-1i64, 0, 2] { univ.push(B { r: Rec::new(ch, s, e), v }); } } } }
+        let key = |b: &B| (b.r.chrom.clone().into_bytes(), b.r.start, b.r.end);
+        let mut frontier: Vec<Vec<usize>> = vec![vec![]];
+        for _ in 0..3 {
+            let mut next = vec![];
+            for f in &frontier { for k in 0..univ.len() { if let Some(l) = f.last() { if key(&univ[*l]) > key(&univ[k]) { continue; } } let mut g = f.clone(); g.push(k); next.push(g); } }
+            for g in &next { out.push(Case::new("exhaustive", enc(&g.iter().map(|k| univ[*k].clone()).collect::<Vec<_>>()))); }
+            frontier = next;
+        }
+    }
     for i in 0..(nb + nr) {
         let small = i < nb;
         let n = if small { rng.range(1, 7) as usize } else { rng.range(5, 120) as usize };
@@ -63,7 +76,7 @@ fn gen(rng: &mut Rng, tier: Tier) -> Vec<Case> {
 pub fn prop() -> PropDef {
     PropDef {
         id: "C08",
-        rule: "corpus, then sorted non-empty bedGraph sequences with values in Z: small (1-9 records, coordinates 0..18, 1-3 chromosomes) and large (5-120 records, offsets up to u64::MAX-1e5); identical, nested, partially overlapping, book-ended records, several records starting/ending at one position with mixed signs, sums cancelling to zero, zero values. Non-trivial: >= 2 records, >= 2 groups, some group of size >= 2. Distinct = distinct input token sequence.",
+        rule: "corpus, then sorted non-empty bedGraph sequences with values in Z: small (1-9 records, coordinates 0..18, 1-3 chromosomes) and large (5-120 records, offsets up to u64::MAX-1e5); identical, nested, partially overlapping, book-ended records, several records starting/ending at one position with mixed signs, sums cancelling to zero, zero values. Non-trivial: >= 2 records, >= 2 groups, some group of size >= 2. Thorough adds the exhaustive small scope: every sorted sequence of <= 3 non-empty records over 2 chromosomes, coordinates 0..=3, values in {-1,0,2}. Distinct = distinct input token sequence.",
         observable: "output records of merge_sorted_bedgraph (BedGraph<i64>)",
         gen, exec, shrink, child: None,
     }
